@@ -31,6 +31,7 @@ type Solver struct {
 	lines   chan string
 	dead    bool
 	Restarts int
+	Grace    time.Duration
 }
 
 func solverArgv(name string, timeoutMs int) []string {
@@ -269,7 +270,10 @@ func (s *Solver) readLine() (string, error) {
 	if s.dead {
 		return "", fmt.Errorf("solver not running")
 	}
-	d := time.Duration(s.TimeoutMs)*time.Millisecond*2 + 5*time.Second
+	d := time.Duration(s.TimeoutMs)*time.Millisecond + s.Grace
+	if s.Grace == 0 {
+		d = time.Duration(s.TimeoutMs)*time.Millisecond*2 + 5*time.Second
+	}
 	select {
 	case l, ok := <-s.lines:
 		if !ok {
